@@ -113,6 +113,36 @@ func Run(unlock, lock []byte, flags interp.Flags, c TxCtx, dbg interpreter.Debug
 	return RunModel(m, 0, lock, c.Amount, flags, dbg)
 }
 
+// FlagOpts renders a flag set as execution options. The form is a pure function of the case
+// (salt): all flags through WithFlags; or the three flags that have an option function of their
+// own (WithAfterGenesis, WithForkID, WithP2SH) through those, before or after a WithFlags for
+// the rest. All forms must configure the same execution.
+func FlagOpts(flags interp.Flags, salt int) []interpreter.ExecutionOptionFunc {
+	all := scriptflag.Flag(flags)
+	form := salt % 3
+	if form == 0 {
+		return []interpreter.ExecutionOptionFunc{interpreter.WithFlags(all)}
+	}
+	var named []interpreter.ExecutionOptionFunc
+	rest := all
+	if all.HasFlag(scriptflag.UTXOAfterGenesis) {
+		named = append(named, interpreter.WithAfterGenesis())
+		rest &^= scriptflag.UTXOAfterGenesis
+	}
+	if all.HasFlag(scriptflag.EnableSighashForkID) {
+		named = append(named, interpreter.WithForkID())
+		rest &^= scriptflag.EnableSighashForkID
+	}
+	if all.HasFlag(scriptflag.Bip16) {
+		named = append(named, interpreter.WithP2SH())
+		rest &^= scriptflag.Bip16
+	}
+	if form == 1 {
+		return append(named, interpreter.WithFlags(rest))
+	}
+	return append([]interpreter.ExecutionOptionFunc{interpreter.WithFlags(rest)}, named...)
+}
+
 // RunModel executes input idx of model m against the given spent output.
 func RunModel(m ref.Tx, idx int, lock []byte, amount uint64, flags interp.Flags, dbg interpreter.Debugger) (out Outcome) {
 	return RunModelOn(interpreter.NewEngine(), m, idx, lock, amount, flags, dbg)
@@ -127,7 +157,7 @@ func RunOn(eng interpreter.Engine, unlock, lock []byte, flags interp.Flags, c Tx
 func RunModelOn(eng interpreter.Engine, m ref.Tx, idx int, lock []byte, amount uint64, flags interp.Flags, dbg interpreter.Debugger) (out Outcome) {
 	tx := ref.ToLib(m)
 	prev := &bt.Output{Satoshis: amount, LockingScript: bscript.NewFromBytes(append([]byte{}, lock...))}
-	opts := []interpreter.ExecutionOptionFunc{interpreter.WithTx(tx, idx, prev), interpreter.WithFlags(scriptflag.Flag(flags))}
+	opts := append([]interpreter.ExecutionOptionFunc{interpreter.WithTx(tx, idx, prev)}, FlagOpts(flags, len(lock)+len(m.In)+int(flags))...)
 	if dbg != nil {
 		opts = append(opts, interpreter.WithDebugger(dbg))
 	}
@@ -153,8 +183,8 @@ func RunModelOn(eng interpreter.Engine, m ref.Tx, idx int, lock []byte, amount u
 // RunScriptsOnly executes through WithScripts (no transaction context).
 func RunScriptsOnly(unlock, lock []byte, flags interp.Flags, dbg interpreter.Debugger) (out Outcome) {
 	opts := []interpreter.ExecutionOptionFunc{
-		interpreter.WithScripts(bscript.NewFromBytes(append([]byte{}, lock...)), bscript.NewFromBytes(append([]byte{}, unlock...))),
-		interpreter.WithFlags(scriptflag.Flag(flags))}
+		interpreter.WithScripts(bscript.NewFromBytes(append([]byte{}, lock...)), bscript.NewFromBytes(append([]byte{}, unlock...)))}
+	opts = append(opts, FlagOpts(flags, len(lock)+len(unlock)+int(flags))...)
 	if dbg != nil {
 		opts = append(opts, interpreter.WithDebugger(dbg))
 	}
